@@ -414,6 +414,12 @@ class Ctx:
         self.results.append(Obl(f'{self.clause}.{name}', 'undecided', '', 0, {'reason': why}))
 
     def bounded(self, name, ok, detail=None):
+        d = detail or {}
+        fl = d.get('failures')
+        # an exception inside the harness itself (not a contract failure observed on the real code) is a checker error: undecided
+        if not ok and (fl == 'error' or (isinstance(fl, (list, tuple)) and len(fl) >= 1 and fl[0] == 'error')):
+            self.results.append(Obl(f'{self.clause}.{name}', 'undecided', 'native', 0, {'reason': 'bounded harness raised: ' + str(d.get('error', fl))[:600]}, kind='bounded'))
+            return
         self.results.append(Obl(f'{self.clause}.{name}', 'bounded_ok' if ok else 'bounded_fail', 'native', 0, detail or {}, kind='bounded'))
 
     def note(self, text):
